@@ -294,6 +294,7 @@ type FieldAccess struct {
 	Write bool
 	Root  *FuncInfo
 	Inl   []*InlFrame
+	Res   *resolver // renders expressions at this access in the frame of Root
 	Fn    ast.Node
 	St    *HState
 }
@@ -1599,7 +1600,7 @@ func (db *SiteDB) analyse(fi *FuncInfo) {
 					db.Deep[fi] = append(db.Deep[fi], &Site{Node: n, Call: v, Callee: calleeKey(info, v), Fn: fc.Fn, Root: fi, St: snap, Ctx: chain, Inl: inl, Res: res})
 				case *ast.SelectorExpr:
 					if fld := fieldOf(info, v); fld != nil {
-						db.DeepFields = append(db.DeepFields, &FieldAccess{Sel: v, Field: fld, Key: l.fieldKey(fld), Write: isWriteTarget(l, v), Root: fi, Inl: inl, Fn: fc.Fn, St: snap})
+						db.DeepFields = append(db.DeepFields, &FieldAccess{Sel: v, Field: fld, Key: l.fieldKey(fld), Write: isWriteTarget(l, v), Root: fi, Inl: inl, Res: res, Fn: fc.Fn, St: snap})
 					}
 				}
 			})
@@ -1686,7 +1687,7 @@ func (db *SiteDB) analyse(fi *FuncInfo) {
 				}
 			case *ast.SelectorExpr:
 				if fld := fieldOf(info, v); fld != nil {
-					db.Fields = append(db.Fields, &FieldAccess{Sel: v, Field: fld, Key: l.fieldKey(fld), Write: isWriteTarget(l, v), Root: fi, Fn: fc.Fn, St: snap})
+					db.Fields = append(db.Fields, &FieldAccess{Sel: v, Field: fld, Key: l.fieldKey(fld), Write: isWriteTarget(l, v), Root: fi, Res: res, Fn: fc.Fn, St: snap})
 				}
 			}
 		})
